@@ -221,6 +221,33 @@ static std::string run_recreated_faces(int ta, int tb, int cut, long* probes) {
     B->clear_data(); return err;
 }
 
+
+// (h3) history independence of the contact phase: two overlapping cells whose caches (face normals / areas, node normals and curvatures) were first computed while one of the cells
+// was turned by half a turn about its own axis, then turned back and refreshed again as the solver does before every contact phase, receive exactly the forces and couplings of the same two
+// cells built directly in the final position.  Whatever a refresh fails to recompute from scratch shows up here.
+static std::string run_turned(int ox, int cut, int ta, int tb, int which, long* nonzero) {
+    char buf[300]; auto mk = [&](const sc::Mesh& m, short t, unsigned id) { return sc::make_cell(m, id, make_type(t, 2), true); };
+    std::vector<vec3> F[2]; std::vector<long> CP[2];
+    for (int hist = 0; hist < 2; hist++) {
+        std::vector<cell_ptr> cells = {mk(sc::scaled(sc::icosphere(1), 1, 0.9, 1.1), (short)ta, 0), mk(sc::translated(sc::scaled(sc::icosphere(1), 1.1, 1, 0.9), 0.25 * ox, 0.1, -0.05), (short)tb, 1)}; for (auto& c : cells) for (unsigned i = 0; i < c->face_lst_.size(); i++) c->face_lst_[i].type_id_ = i % 3;
+        if (hist) { cell& c = *cells[which]; std::vector<vec3> final_pos; vec3 ctr(0, 0, 0); long n = 0; for (node& nd : c.node_lst_) { final_pos.push_back(nd.pos_); if (nd.is_used_) { ctr = ctr + nd.pos_; n++; } } ctr = ctr / (double)n;
+            for (node& nd : c.node_lst_) if (nd.is_used_) nd.pos_ = vec3(2 * ctr.dx() - nd.pos_.dx(), 2 * ctr.dy() - nd.pos_.dy(), nd.pos_.dz());   // half a turn about the z axis through the centre
+            prepare(cells); for (unsigned i = 0; i < c.node_lst_.size(); i++) c.node_lst_[i].pos_ = final_pos[i]; }
+        prepare(cells); global_simulation_parameters sp = sc::make_sim_params("unused", 0.3); sp.contact_cutoff_adhesion_ = CADH[cut]; sp.contact_cutoff_repulsion_ = CREP[cut]; Model model(sp); zero_forces(cells); model.run(cells);
+        for (auto& c : cells) for (node& nd : c->node_lst_) { F[hist].push_back(nd.is_used_ ? nd.force_ : vec3(0, 0, 0));
+#if CONTACT_MODEL_INDEX == 1
+            CP[hist].push_back(nd.is_used_ && nd.coupled_node_.has_value() ? (long)nd.coupled_node_->first * 100000 + (long)nd.coupled_node_->second : -1);
+#elif CONTACT_MODEL_INDEX == 2
+            long h = 0; if (nd.is_used_) for (auto& kv : nd.coupled_nodes_map_) h += ((long)kv.first * 100000 + (long)kv.second.first + 1) * 7919; CP[hist].push_back(h);
+#else
+            CP[hist].push_back(-1);
+#endif
+        }
+        for (auto& c : cells) c->clear_data(); }
+    double sumabs = 0; for (auto& f : F[0]) sumabs += f.norm(); if (sumabs > 0 && nonzero) (*nonzero)++;
+    for (size_t i = 0; i < F[0].size(); i++) if ((F[0][i] - F[1][i]).norm() > 1e-12 * (1 + F[0][i].norm()) || CP[0][i] != CP[1][i]) { snprintf(buf, sizeof buf, "contact-result-depends-on-the-history-of-the-cells: node slot %zu receives force (%.6g,%.6g,%.6g) when cell %d was turned by half a turn and back before the phase, (%.6g,%.6g,%.6g) when the cells are built in place%s", i, F[1][i].dx(), F[1][i].dy(), F[1][i].dz(), which, F[0][i].dx(), F[0][i].dy(), F[0][i].dz(), CP[0][i] != CP[1][i] ? "; couplings differ" : ""); return buf; }
+    return ""; }
+
 static std::string run_self(int type, int cut, int ids = 0) {
     // a dumbbell-like concave cell: two lobes whose surfaces come within the cut-off of each other
     sc::Mesh m = sc::icosphere(2); for (size_t i = 0; i < m.nv(); i++) { double x = m.pos[3*i]; double r = 0.25 + 0.75 * x * x; m.pos[3*i+1] *= r; m.pos[3*i+2] *= r; if (std::fabs(x) < 0.2) { m.pos[3*i+1] *= 0.1; m.pos[3*i+2] *= 0.1; } }
@@ -250,6 +277,9 @@ static void explore(Result& R) {
             if (!e.empty()) R.violation(clause_of(e) + "|types=" + std::to_string(ta) + ">" + std::to_string(tb) + "|two-phases", "two icospheres 0.05 below contact, then 40 cell sizes apart, types " + std::to_string(ta) + "," + std::to_string(tb) + (sl ? ", node lists with a free slot" : "") + ": " + e, "mode=twophase\nta=" + std::to_string(ta) + "\ntb=" + std::to_string(tb) + "\ncut=" + std::to_string(cu) + "\nslots=" + std::to_string(sl) + "\n"); }
           std::string e = run_recreated_faces(ta, tb, cu, &probes); tissues++; if (!e.empty() && e != "skip") R.violation(clause_of(e) + "|types=" + std::to_string(ta) + ">" + std::to_string(tb) + "|recreated-faces", "types " + std::to_string(ta) + "," + std::to_string(tb) + ": " + e, "mode=recreated\nta=" + std::to_string(ta) + "\ntb=" + std::to_string(tb) + "\ncut=" + std::to_string(cu) + "\n"); }
       R["two_phase_tissues"] = two; R["probes_of_faces_recreated_since_the_last_refresh"] = probes; if (!probes && R.violations.empty()) R.internal_error = "no re-created face was probed (vacuous)"; }
+    { long turned = 0, tnz = 0; for (int ox : {-8, -7, 6, 7, 8}) for (int cu = 0; cu < 2; cu++) for (int ta = 0; ta < 5; ta++) for (int tb = 0; tb < 5; tb++) for (int which = 0; which < 2; which++) { turned++; tissues++; std::string e = run_turned(ox, cu, ta, tb, which, &tnz);
+          if (!e.empty()) R.violation(clause_of(e) + "|types=" + std::to_string(ta) + ">" + std::to_string(tb) + "|turned", "two ellipsoids, offset " + std::to_string(0.25 * ox) + ", types " + std::to_string(ta) + "," + std::to_string(tb) + ": " + e, "mode=turned\nox=" + std::to_string(ox) + "\ncut=" + std::to_string(cu) + "\nta=" + std::to_string(ta) + "\ntb=" + std::to_string(tb) + "\nwhich=" + std::to_string(which) + "\n"); }
+      R["tissues_with_a_cell_turned_since_its_first_refresh"] = turned; R["of_which_with_contact_force"] = tnz; if (!tnz && R.violations.empty()) { R.internal_error = "turned-cell block vacuous"; return; } }
     long within = 0, beyond = 0, rforces = 0, lattices = 0;
     for (int tri = 0; tri < 5; tri++) for (int rot = 0; rot < 3; rot++) for (int cu = 0; cu < 2; cu++) for (int ta = 0; ta < 5; ta++) for (int tb = 0; tb < 5; tb++) { lattices++; std::string e = run_range(tri, rot, cu, ta, tb, &within, &beyond, &rforces);
         if (!e.empty()) { int only = atoi(e.c_str() + e.rfind("lattice index ") + 14); R.violation(clause_of(e) + "|types=" + std::to_string(ta) + ">" + std::to_string(tb) + "|range-lattice", e, "mode=range\ntri=" + std::to_string(tri) + "\nrot=" + std::to_string(rot) + "\ncut=" + std::to_string(cu) + "\nta=" + std::to_string(ta) + "\ntb=" + std::to_string(tb) + "\nonly=" + std::to_string(only) + "\nlat=" + std::to_string(LAT) + "\n"); } }
@@ -266,6 +296,7 @@ static int replay(const Replay& rp, Result& R) { std::string e1, e2, m = rp.get(
     if (m == "pair") { Case c; std::istringstream i(rp.get("case")); i >> c.ta >> c.tb >> c.depth >> c.base >> c.strength >> c.cut >> c.face >> c.meshb; e1 = run_case(c); e2 = run_case(c); printf("%s\n", case_json(c).c_str()); }
     else if (m == "range") { if (rp.geti("lat", 13) == 27) { LAT = 27; LAT_STEP = 0.15; } long a = 0, b = 0, c = 0; auto go = [&] { return run_range((int)rp.geti("tri"), (int)rp.geti("rot"), (int)rp.geti("cut"), (int)rp.geti("ta"), (int)rp.geti("tb"), &a, &b, &c, (int)rp.geti("only", -1)); }; e1 = go(); e2 = go(); }
     else if (m == "twophase") { auto go = [&] { return run_two_phases((int)rp.geti("ta"), (int)rp.geti("tb"), (int)rp.geti("cut"), (int)rp.geti("slots")); }; e1 = go(); e2 = go(); }
+    else if (m == "turned") { auto go = [&] { return run_turned((int)rp.geti("ox"), (int)rp.geti("cut"), (int)rp.geti("ta"), (int)rp.geti("tb"), (int)rp.geti("which"), nullptr); }; e1 = go(); e2 = go(); }
     else if (m == "recreated") { long pr = 0; auto go = [&] { return run_recreated_faces((int)rp.geti("ta"), (int)rp.geti("tb"), (int)rp.geti("cut"), &pr); }; e1 = go(); e2 = go(); }
     else if (m == "tissue") { e1 = run_tissue((int)rp.geti("ox"), (int)rp.geti("cut"), (int)rp.geti("ta"), (int)rp.geti("tb"), &nz); e2 = run_tissue((int)rp.geti("ox"), (int)rp.geti("cut"), (int)rp.geti("ta"), (int)rp.geti("tb"), &nz); }
     else { int ids = (int)rp.geti("ids", 0); e1 = run_self((int)rp.geti("type"), (int)rp.geti("cut"), ids); e2 = run_self((int)rp.geti("type"), (int)rp.geti("cut"), ids); }
